@@ -61,8 +61,8 @@ impl Check for C10 {
     fn strategy(&self, _tier: Tier) -> BoxedStrategy<Case> {
         let c = c01::cfg();
         (
-            ga::shaped_program(&c, 1),
-            ga::shaped_program(&c, 1),
+            ga::shaped_program(&c, 0),
+            ga::shaped_program(&c, 0),
             prop::sample::subsequence(FLAGS.to_vec(), 0..=4),
             gt::choices(40),
             0u8..=8,
@@ -81,7 +81,7 @@ impl Check for C10 {
             .boxed()
     }
     fn rule(&self) -> String {
-        "a strong-equivalence task over two random programs, or (1 in 3) an external-equivalence task (program or specification, user guide, 2 in 3 with a proof outline of lemmas and an inductive lemma), 1-20 problems, is first run with --no-proof-search --save-problems; then `verify` runs with a stand-in `vampire` first in PATH that stores its stdin and answers by plan (keyed by the SHA-256 of the problem text): each problem gets one of {Theorem, Theorem or Timeout after 8 KB of other output, CounterSatisfiable, ContradictoryAxioms, Timeout, MemoryOut, GaveUp, Error, unknown status word, no status line, non-UTF-8 output, Theorem with non-zero exit, no status with non-zero exit, killed by signal} and a delay of 0-40 ms, with 1-8 (or auto) prover instances; half of the plans have zero or exactly one non-Theorem outcome at a generated position; plus runs with the executable missing and with a prover that exits without reading; oracle: every stored stdin is byte-identical to a saved file and the multisets agree (each problem handed over exactly once), the files saved by both runs agree (also when the second directory already holds longer files of the same names), problem names are distinct, stdout says Success iff every planned outcome prints SZS status Theorem, otherwise Failure, every named status line matches the plan, exit status 0; non-trivial = at least 2 problems and at least 2 instances with zero or one non-Theorem outcome; distinct by problems + plan + instances".into()
+        "a strong-equivalence task over two random programs, or (1 in 3) an external-equivalence task (program or specification, user guide, 2 in 3 with a proof outline of lemmas and an inductive lemma), 1-20 problems, is first run with --no-proof-search --save-problems; then `verify` runs with a stand-in `vampire` first in PATH that stores its stdin and answers by plan (keyed by the SHA-256 of the problem text): each problem gets one of {Theorem, Theorem or Timeout after 8 KB of other output, GaveUp followed by Theorem in one run (counts as not proven: a status other than Theorem was printed), CounterSatisfiable, ContradictoryAxioms, Timeout, MemoryOut, GaveUp, Error, unknown status word, no status line, non-UTF-8 output, Theorem with non-zero exit, no status with non-zero exit, killed by signal} and a delay of 0-40 ms, with 1-8 (or auto) prover instances; half of the plans have zero or exactly one non-Theorem outcome at a generated position; plus runs with the executable missing and with a prover that exits without reading; oracle: every stored stdin is byte-identical to a saved file and the multisets agree (each problem handed over exactly once), the files saved by both runs agree (also when the second directory already holds files of the same names that are longer, or as long with another content), problem names are distinct, stdout says Success iff every planned outcome prints SZS status Theorem, otherwise Failure, every named status line matches the plan, exit status 0; non-trivial = at least 2 problems and at least 2 instances with zero or one non-Theorem outcome; distinct by problems + plan + instances".into()
     }
     fn run(&self, case: &Case) -> Outcome {
         let Some(bin) = cli::anthem_bin() else {
@@ -170,7 +170,19 @@ impl Check for C10 {
         }
         let files = cli::snapshot_dir(&saved);
         if files.is_empty() {
-            return cleanup(Outcome::skip("no problems"));
+            // a claim without obligations: the proof search has nothing to do and must say so quietly
+            let mut args = base_args(&saved2);
+            args.push("-n".into());
+            args.push(case.instances.to_string());
+            let argv: Vec<&str> = args.iter().map(|s| s.as_str()).collect();
+            let r = cli::run_env(&bin, &argv, None, &[("PATH", "/usr/bin:/bin".to_string())], Duration::from_secs(120));
+            if r.timed_out || r.code != Some(0) || !r.stdout.contains("> Success!") {
+                return cleanup(Outcome::fail(
+                    "no-problems-run",
+                    format!("C10: a task without problems: verify exited with {:?} (signal {:?}), stdout {:?}, stderr {}\n  instances: {}", r.code, r.signal, tail(&r.stdout), tail(&r.stderr), case.instances),
+                ));
+            }
+            return cleanup(Outcome::pass(false, hash64("no problems")).label("problems=0"));
         }
         // plan
         let mut c = Chooser::new(case.plan.clone());
@@ -186,10 +198,11 @@ impl Check for C10 {
                 stub::OUTCOMES[c.next(13)]
             };
             // one outcome in six is preceded by some 8 KB of output (failed strategies of a portfolio prover)
-            let outcome = if c.aux(40 + i as u64, 6) == 0 {
+            let outcome = if c.aux(40 + i as u64, 4) == 0 {
                 match outcome {
                     "Theorem" => "TheoremAfterLongOutput",
-                    "Timeout" | "GaveUp" => "TimeoutAfterLongOutput",
+                    "Timeout" | "MemoryOut" => "TimeoutAfterLongOutput",
+                    "GaveUp" | "CounterSatisfiable" | "ContradictoryAxioms" | "Error" | "UnknownWord" | "NoStatus" => "GaveUpThenTheorem",
                     o => o,
                 }
             } else {
@@ -218,7 +231,13 @@ impl Check for C10 {
         // written (a directory re-used from an earlier run); they must be replaced, not overwritten in place
         if c.flag(1, 2) {
             for (name, content) in &files {
-                std::fs::write(saved2.join(name), format!("{content}% left over from an earlier run\n{}", "%".repeat(content.len() / 2))).unwrap();
+                // longer than the new file, or exactly as long with another content
+                let stale = if c.aux(23, 2) == 0 {
+                    format!("{content}% left over from an earlier run\n{}", "%".repeat(content.len() / 2))
+                } else {
+                    content.replace("tff(", "tgg(").replace('0', "7")
+                };
+                std::fs::write(saved2.join(name), stale).unwrap();
             }
         }
         let mut second = base_args(&saved2);
@@ -290,6 +309,10 @@ impl Check for C10 {
             }
             // per-problem status lines
             for (name, outcome) in &by_name {
+                if outcome == "GaveUpThenTheorem" {
+                    // which of the two status lines is shown is not prescribed; only the verdict is checked
+                    continue;
+                }
                 let marker_ok = format!("> Proving {name} ended with a SZS status");
                 let marker_no = format!("> Proving {name} ended without a SZS status");
                 match status_word(outcome) {
